@@ -26,6 +26,7 @@ class Tracer(object):
         # locs: 'pkg.mod.name' -> index   (pkg.mod = last two components of the module name)
         self.byfile = {}
         self.events = []
+        locs = {k: i for k, i in locs.items() if not k.startswith('class.')}   # class attributes are not module globals
         mods = set(k.rsplit('.', 1)[0] for k in locs)
         for short in mods:
             full = 'exactpack.solvers.' + short
